@@ -8,6 +8,7 @@ pub use std::time::Duration;
 pub struct Sleep {
     deadline: u64,
     registered: bool,
+    timer: simkit::exec::TimerSlot,
 }
 
 pub fn sleep(duration: Duration) -> Sleep {
@@ -16,7 +17,7 @@ pub fn sleep(duration: Duration) -> Sleep {
         s.event("sleep", duration.as_nanos() as u64, 0);
         s.now_ns
     });
-    Sleep { deadline: now.saturating_add(duration.as_nanos().min(u64::MAX as u128) as u64), registered: false }
+    Sleep { deadline: now.saturating_add(duration.as_nanos().min(u64::MAX as u128) as u64), registered: false, timer: simkit::exec::TimerSlot::new() }
 }
 
 impl Sleep {
@@ -36,7 +37,8 @@ impl Future for Sleep {
         // like tokio, a fresh sleep is never ready on its first poll when its duration is > 0;
         // a zero sleep completes after one trip through the scheduler
         self.registered = true;
-        simkit::exec::register_timer(self.deadline, cx.waker().clone());
+        let d = self.deadline;
+        self.timer.arm(d, cx);
         Poll::Pending
     }
 }
